@@ -36,7 +36,7 @@ package bus
 
 //@ func NewMailBox(r Receiver) (result MailBox)
 //@   trusted
-//@   ensures result != nil && fresh(result)
+//@   ensures result != nil && fresh(result) && !result.chclosed
 //@ func objectActivation(service *serviceImpl, session Session, serviceID uint32, objectID uint32) (result Activation)
 //@   trusted
 //@   pure
@@ -45,6 +45,7 @@ package bus
 //@ guarded_by (s *serviceImpl) s.RWMutex: s.objects, s.boxes, s.objects[*], s.boxes[*]
 //@   monitor s.objects != nil && s.boxes != nil
 //@   monitor forall k uint32 {has(s.objects, k)} :: has(s.objects, k) ==> s.objects[k] != nil
+//@   monitor forall k uint32 {has(s.boxes, k)} :: has(s.boxes, k) ==> !s.boxes[k].chclosed
 
 //@ func (s *serviceImpl) Remove(objectID uint32) (err error)
 //@   tags C16
